@@ -60,6 +60,21 @@ type Cfg struct {
 	MaxFrameSize int64
 	CheckUTF8    bool
 	Extensions   []wsutil.RecvExtension
+	// SkipHeaderCheck switches the RFC header check of the drivers' own Reader off (valid
+	// streams must read the same with and without it)
+	SkipHeaderCheck bool
+}
+
+// WithSkipHeaderCheck is d with Reader.SkipHeaderCheck set (for the drivers that build their
+// Reader themselves).
+func WithSkipHeaderCheck(d Driver) Driver {
+	run := d.Run
+	d.Name += "+skip-header-check"
+	d.Run = func(src io.Reader, side streams.Side, cfg Cfg, res *Result) {
+		cfg.SkipHeaderCheck = true
+		run(src, side, cfg, res)
+	}
+	return d
 }
 
 func identity(ev []Event) []Event { return ev }
@@ -116,7 +131,7 @@ func readerLoop(buf, lazy, contReads int) Driver {
 			if cfg.Extended {
 				st |= ws.StateExtended
 			}
-			rd := &wsutil.Reader{Source: src, State: st, MaxFrameSize: cfg.MaxFrameSize, CheckUTF8: cfg.CheckUTF8, Extensions: cfg.Extensions}
+			rd := &wsutil.Reader{Source: src, State: st, MaxFrameSize: cfg.MaxFrameSize, CheckUTF8: cfg.CheckUTF8, Extensions: cfg.Extensions, SkipHeaderCheck: cfg.SkipHeaderCheck}
 			if buf == 512 && !cfg.Extended && cfg.MaxFrameSize == 0 && len(cfg.Extensions) == 0 {
 				// this variant goes through the constructors
 				if side == streams.Server {
@@ -246,7 +261,7 @@ func ReaderDiscard(k int) Driver {
 			if cfg.Extended {
 				st |= ws.StateExtended
 			}
-			rd := &wsutil.Reader{Source: src, State: st, MaxFrameSize: cfg.MaxFrameSize, CheckUTF8: cfg.CheckUTF8, Extensions: cfg.Extensions}
+			rd := &wsutil.Reader{Source: src, State: st, MaxFrameSize: cfg.MaxFrameSize, CheckUTF8: cfg.CheckUTF8, Extensions: cfg.Extensions, SkipHeaderCheck: cfg.SkipHeaderCheck}
 			res.Reader = rd
 			rd.OnIntermediate = func(h ws.Header, r io.Reader) error {
 				p, err := io.ReadAll(r)
@@ -566,6 +581,7 @@ func ParseFrames(b []byte) (out []refmodel.Frame, rest []byte) {
 func All() []Driver {
 	return []Driver{
 		ReaderLoop(1), ReaderLoop(2), ReaderLoop(7), ReaderLoop(512),
+		WithSkipHeaderCheck(ReaderLoop(7)), WithSkipHeaderCheck(ReaderDiscard(1)),
 		ReaderAlternatingBuffers(), ReaderLazyHandler(0), ReaderLazyHandler(1), ReaderContinuationHandler(1), ReaderContinuationHandler(64),
 		ReaderDiscard(0), ReaderDiscard(1), ReaderDiscardUTF8(1), ReaderDiscardUTF8(2),
 		NextReaderLoop(), ReadMessageLoop(), ReadSideMessageLoop(),
